@@ -93,7 +93,7 @@ impl Property for C05 {
     fn components_real(&self) -> Vec<&'static str> { vec!["production::connection_optimized::OptimizedConnectionHandler transaction state machine (MULTI/EXEC/DISCARD/WATCH/UNWATCH, queueing, EXECABORT, watch comparison) through hook H1", "ShardedActorState + shard actors + CommandExecutor for every queued and plain command"] }
     fn components_stubbed(&self) -> Vec<&'static str> { vec!["TCP -> SimStream, one command per read", "the oracle twin executes plain commands through ShardedActorState::execute on a second state (it has no transaction logic of its own)"] }
     fn assumptions(&self) -> Vec<&'static str> { vec!["'value of a watched key' = type and content, not TTL", "nested MULTI and WATCH inside MULTI answer an error without aborting the transaction (Redis behaviour)", "SPOP not generated"] }
-    fn required_probes(&self) -> Vec<&'static str> { vec!["foreign_write_between_watch_and_exec", "exec_applied", "exec_aborted_by_watch", "execabort", "discard", "overlapping_exec", "executor_level_run", "stray_exec_or_discard_outside_multi"] }
+    fn required_probes(&self) -> Vec<&'static str> { vec!["foreign_write_between_watch_and_exec", "exec_applied", "exec_aborted_by_watch", "execabort", "discard", "overlapping_exec", "executor_level_run", "stray_exec_or_discard_outside_multi", "connection_closed_inside_multi"] }
     fn runs(&self, tier: Tier) -> u64 { match tier { Tier::Quick => 150000, Tier::Thorough => 3000000 } }
 
     fn run(&self, src: &mut Src, ctx: &RunCtx) -> RunReport {
@@ -154,6 +154,8 @@ impl Property for C05 {
         // transaction is open), with stray EXEC/DISCARD outside MULTI thrown in
         if src.below(6) == 0 { return self.run_executor_mode(src, ctx, &setup, &a, &bcmds); }
         let yield_bias = 1 + src.below(7);
+        // fault: A's connection is closed (by the peer, possibly in the middle of a frame) while a transaction is open
+        let cut: Option<(usize, bool)> = if src.chance(1, 8) { Some((src.idx(a.len()), src.chance(1, 2))) } else { None };
         let seed = src.u64_any();
         let trace = ctx.trace;
         let clock = SimClock::new(1_700_000_000_000);
@@ -188,6 +190,22 @@ impl Property for C05 {
                     if !rb.eq_unordered(&rt_) { o.viol = Some(("C05/foreign-command-reply-differs".into(), format!("B's {} replied {} but on the sequential twin {}", show_cmd(c), rb.show(), rt_.show()))); return o; }
                 }
                 let c = a_cmd(step);
+                if let Some((ci, mid_frame)) = cut {
+                    if ci == i && in_multi {
+                        o.probes.push("connection_closed_inside_multi");
+                        if mid_frame { let bytes = encode_cmd(&c); sa.deliver(&bytes[..bytes.len() / 2]); }
+                        sa.close();
+                        for _ in 0..200 { if let Step::Idle = sched.step(src, 0).await { break; } }
+                        let (dr, dt) = (dump(&real, true).await, dump(&twin.state, true).await);
+                        if dr != dt {
+                            let k = dr.keys().chain(dt.keys()).find(|k| dr.get(*k) != dt.get(*k)).cloned().unwrap_or_default();
+                            o.viol = Some(("C05/disconnect-inside-multi-changed-keyspace".into(), format!("A's connection closed after {} queued command(s), before EXEC: key {:?} is {:?} on the server but {:?} on the sequential twin", queued.len(), String::from_utf8_lossy(&k), dr.get(&k), dt.get(&k))));
+                            return o;
+                        }
+                        if trace { o.log.push(format!("A: connection closed inside MULTI with {} queued", queued.len())); }
+                        break;
+                    }
+                }
                 let is_exec = matches!(step, AStep::Exec);
                 // mode 2: one foreign command in flight together with the first EXEC
                 let mut overlapped: Option<(Cmd, R)> = None;
@@ -353,8 +371,9 @@ impl Property for C05 {
         if let Some((k, m)) = out.viol { rep.violate(k, m); }
         for p in &out.probes { rep.probe(p); }
         rep.evals = out.evals.max(1);
-        rep.nontrivial = out.probes.contains(&"foreign_write_between_watch_and_exec") || out.probes.contains(&"overlapping_exec");
-        let mut fp = fnv(0, &[shards as u8, overlap_mode as u8]);
+        if out.probes.contains(&"connection_closed_inside_multi") { rep.fault("connection_closed_inside_multi"); }
+        rep.nontrivial = out.probes.contains(&"foreign_write_between_watch_and_exec") || out.probes.contains(&"overlapping_exec") || out.probes.contains(&"connection_closed_inside_multi");
+        let mut fp = fnv(0, &[shards as u8, overlap_mode as u8, cut.map(|c| c.0 as u8 + 1).unwrap_or(0)]);
         for s in &a { for x in a_cmd(s) { fp = fnv(fp, &x); fp = fnv(fp, &[0]); } }
         for (p, c) in &bcmds { fp = fnv(fp, &[*p as u8]); for x in c { fp = fnv(fp, x); } }
         rep.fingerprint = fp;
